@@ -474,10 +474,6 @@ def _distinct(l):
         return False
 
 
-def _rep_panel_kind(r):
-    return r["k"]
-
-
 def _walk(c, toks, fails):
     """Property text, hop by hop.  State: expected values (in the expected variable order), expected names when every
     container so far carried names."""
@@ -704,7 +700,7 @@ def features(c, out):
             v = p["vals"]
             f.append("shape=%s,%s,%s" % tuple(str(x) if x <= 4 else "5+" for x in (len(v), len(v[0]), len(v[0][0]))))
             nm = p.get("names")
-            f.append("names=" + ("default" if nm is None else "int" if nm and isinstance(nm[0], int) else "str"))
+            f.append("names=" + ("default" if nm is None or nm == default_names(len(nm)) else "int" if nm and isinstance(nm[0], int) else "str"))
         for tok in out.replace(" || ", " > ").split(" > "):
             if tok.startswith("E:") or tok.startswith("X:"):
                 f.append("err=" + tok)
